@@ -56,7 +56,10 @@ def _one(prop, repo_root, base_tmp, v):
             return ("skipped", v, "anchor text occurs %d times" % new_src.count(old))
         new_src = new_src.replace(old, new)
     try:
-        compile(new_src, rel, "exec")
+        import warnings
+        with warnings.catch_warnings():
+            warnings.simplefilter("ignore")
+            compile(new_src, rel, "exec")
     except SyntaxError as e:
         return ("error", v, "variant does not compile: %s" % e)
     d = tempfile.mkdtemp(prefix="v_", dir=base_tmp)
